@@ -1,0 +1,23 @@
+# Directories
+LIBDIR:=lib
+INCDIR:=include
+SQINCDIR:=include/SQuIDS
+SRCDIR:=src
+INSTALL_LIBDIR:=lib
+
+# Compiler
+CC:=gcc
+CXX:=g++
+AR:=ar
+LD:=ld
+
+GSL_CFLAGS=
+GSL_LDFLAGS=-lgsl -lgslcblas -lm 
+
+CFLAGS:= -Wno-error -Wno-abi -O3 -fPIC -I$(INCDIR) $(GSL_CFLAGS)
+CXXFLAGS:= -Wno-error -std=c++11
+LDFLAGS:= -Wl,-rpath -Wl,$(LIBDIR) -L$(LIBDIR) $(GSL_LDFLAGS)
+
+DYN_SUFFIX:=.so
+DYN_OPT=-shared -Wl,-soname,$(shell basename $(DYN_PRODUCT))
+
